@@ -635,7 +635,10 @@ const HardStepsPerExecution = 1500000
 func DropIfTooExpensive(env *sim.Env) {
 	if r := recover(); r != nil {
 		if _, ok := r.(tooExpensive); ok {
+			// not judged: counted as invalid. The driver reports liveness/step-budget only when such runs
+			// are far more frequent than generated worlds explain (a loop the library does not leave).
 			env.Res.Violations = nil
+			env.Violate("liveness", "step-budget", "one Execute passed more than %d hook sites (function, global and field resolutions) and was stopped", HardStepsPerExecution)
 			env.Res.Invalid = "a template of the generated world costs more than 1.5 million steps to execute"
 			env.Res.Nontrivial = false
 			return
